@@ -41,19 +41,19 @@ begin
   resetable_bitvector <= buffer_resetable_bitvector;
   
 
-  proc: process(clk)
+  proc: process(clk, reset)
     variable temp : boolean;
     variable temp1 : unsigned(2 downto 0);
     variable temp2 : unsigned(2 downto 0);
   begin
-    if rising_edge(clk) then
-      temp := reset = '1';
-      if temp then
-        s_proc <= state_0;
-        cnt <= unsigned'("011");
-        buffer_resetable_bit <= '0';
-        buffer_resetable_bitvector <= "000";
-      else
+    temp := reset = '1';
+    if temp then
+      s_proc <= state_0;
+      cnt <= unsigned'("011");
+      buffer_resetable_bit <= '0';
+      buffer_resetable_bitvector <= "000";
+    else
+      if rising_edge(clk) then
         case s_proc is
           when state_0 =>
             s_proc <= state_1;
